@@ -279,6 +279,8 @@ def run(chk, ctx):
     r4(chk, ctx)
     r5(chk, ctx)
     r6(chk, ctx)
+    from . import c05
+    c05.r2(chk, ctx, p, ctx.mod("state_engine"))
     chk.assume("the broker redelivers unacknowledged messages (trusted)")
     chk.assume("engine-internal calls do not raise; exception edges come from the may-raise table of sa/flow.py")
     chk.assume("an uncaught exception in a timer/reply callback is not acknowledged by anybody (C18.R4 findings are therefore also C03 findings)")
